@@ -19,6 +19,11 @@ def collections():
     C["r_atx_dup"] = X.rel(["@", "x"], [[N(0), N(1)], [N(0), N(2)], [N(1), N(3)]])
     C["ar_hole_end"] = X.binop("without", X.arr([N(1), N(2), N(3)]), X.tup([("@", N(2)), ("@item", N(3))]))
     C["ar_neg"] = X.arr([N(7), N(8)], -2)
+    C["ar_hole2"] = X.arr([N(1), None, None, N(4)])
+    C["ar_hole3"] = X.arr([N(1), None, None, None, N(5), N(6)])
+    C["ar_where"] = X.where(X.arr([N(1), N(2), N(3), N(4), N(5)]), X.dotfn(X.cmpop("<:", X.dot(X.var("."), "@"), X.set_([N(0), N(4)]))))
+    C["str_hole2"] = X.where(X.string("abcde"), X.dotfn(X.cmpop("<:", X.dot(X.var("."), "@"), X.set_([N(0), N(4)]))))
+    C["ar_one_off"] = X.arr([N(9)], 3)
     C["str_gap"] = X.binop("with", X.string("ab"), X.tup([("@", N(4)), ("@char", N(101))]))
     C["d_tupkey"] = X.dict_([(X.tup([("a", N(1))]), N(1)), (X.arr([N(1)]), N(2))])
     C["u_keyed"] = X.binop("|", X.arr([N(1), N(2)]), X.dict_([(X.string("k"), N(5))]))
